@@ -114,6 +114,20 @@ def gen(rng, ctx):
             cd = G.cd_rename(cd, {v: rng.choice(["_" + v, v + "$", v + "_", v.upper()]) for v in rng.sample(names, min(len(names), rng.randint(1, 3)))})
         except ValueError:
             pass
+    if rng.random() < 0.12:
+        # the writer's helper for constants is named <input>_not: a design net of that name inverting ANOTHER net
+        tp = G.cd_types(cd)
+        prd = G.cd_preds(cd)
+        ins_ = [n for n, t, _ in cd["nodes"] if t == "input"]
+        nots = [n for n, t, _ in cd["nodes"] if t == "not"]
+        for g_ in nots:
+            others = [i_ for i_ in ins_ if i_ not in prd[g_] and f"{i_}_not" not in tp]
+            if others:
+                try:
+                    cd = G.cd_rename(cd, {g_: f"{rng.choice(others)}_not"})
+                except ValueError:
+                    pass
+                break
     return {"op": "write", "c": cd}
 
 
